@@ -174,3 +174,22 @@ Theorem phases_exclusive : forall c v d p q, is_phase c v d p = true -> is_phase
 Proof. intros [] [] [] [] []; cbn; intros H1 H2; try discriminate; reflexivity. Qed.
 Theorem offer_is_not_confirm : forall c v d, is_phase c v d Tender = true -> is_phase c v d Affirm = false.
 Proof. intros [] [] []; cbn; intros H; try discriminate; reflexivity. Qed.
+
+(* ---- a reply that OVERTAKES the end of the send: the awaited packet (and repeats of it, and unrelated packets) arrives while the role coroutine
+   has not yet reached its await (its own send of the previous frame is still pending: a lost echo, a retransmission); when it does reach the
+   await the wait ends at once with that packet -- it is not lost ---- *)
+Definition got (hst : bool) : bw := upd FRes CWaiting hst false NotStarted.
+Lemma early_steps others : (forall e, In e others -> e = EOther \/ e = EMatch) ->
+  forall hst n, fold_left (fun acc e => let '(s', k) := step true (fst acc) e in (s', snd acc + k)) others (got hst, n) = (got hst, n).
+Proof.
+  induction others as [|e others IH]; intros H hst n; [reflexivity|]. cbn [fold_left fst snd].
+  destruct (H e (or_introl eq_refl)) as [-> | ->]; cbn; rewrite Nat.add_0_r; apply IH; intros e' He'; apply H; right; exact He'.
+Qed.
+Lemma early_first hst others : (forall e, In e others -> e = EOther \/ e = EMatch) -> steps true (bw0 hst) (EMatch :: others) = (got hst, 0).
+Proof. intros H. unfold steps. cbn [fold_left]. change (step true (fst (bw0 hst, 0)) EMatch) with (got hst, 0). cbn [fst snd Nat.add]. apply early_steps, H. Qed.
+Theorem early_match_not_lost hst others : (forall e, In e others -> e = EOther \/ e = EMatch) ->
+  b_w (fst (run true hst [EMatch :: others; [EStart]])) = Done OkMsg /\ b_ctx (fst (run true hst [EMatch :: others; [EStart]])) = CNext.
+Proof.
+  intros H. unfold run. cbn [fold_left]. unfold instant. cbn [fst snd]. rewrite (early_first hst others H).
+  destruct hst; vm_compute; split; reflexivity.
+Qed.
